@@ -611,6 +611,13 @@ fn format_expression_or_type(
     }
 }
 
+/// Check if the shortest digits that identify a float select a neighbouring float when they are read through a double
+/// The lexer - like other compilers - reads the digits as a double and then rounds a second time to the literal type
+/// The digits of the same value as a double do not have this problem
+fn f32_digits_round_twice(v: f32) -> bool {
+    v.to_string().parse::<f64>().map(|d| d as f32) != Ok(v)
+}
+
 /// Format a literal
 fn format_literal(
     literal: &ast::Literal,
@@ -660,6 +667,9 @@ fn format_literal(
         ast::Literal::Float16(v) if *v > i64::MAX as f32 || *v < i64::MIN as f32 => {
             write!(output, "{v}.0h").unwrap()
         }
+        ast::Literal::Float16(v) if f32_digits_round_twice(*v) => {
+            write!(output, "{}h", *v as f64).unwrap()
+        }
         ast::Literal::Float16(v) => write!(output, "{v}h").unwrap(),
         ast::Literal::Float32(v) if *v == f32::INFINITY => {
             write_infinity_f32(output, context);
@@ -680,6 +690,9 @@ fn format_literal(
         }
         ast::Literal::Float32(v) if *v > i64::MAX as f32 || *v < i64::MIN as f32 => {
             write!(output, "{v}.0f").unwrap()
+        }
+        ast::Literal::Float32(v) if f32_digits_round_twice(*v) => {
+            write!(output, "{}f", *v as f64).unwrap()
         }
         ast::Literal::Float32(v) => write!(output, "{v}f").unwrap(),
         ast::Literal::Float64(v) if *v == f64::INFINITY => {
